@@ -3,10 +3,13 @@ C37 — HTML and Markdown formatting never crash and stay within the text.
 Property theorems only.  What is proved: for EVERY sequence of builder calls a parser can make
 (whatever the third-party tokenizer fed it), the text and entities returned by `Complete` satisfy
 "every entity lies within the text, offsets and lengths are non-negative".  What is NOT proved and
-only exercised under `recover()` by the harness: absence of panics (tokenizers are not modelled).
+only exercised under `recover()` by the harness: absence of panics in the third-party tokenizers and
+in the parsers' own control flow.  Round 2: `telegramUnescape` (html/unescape.go, the byte-index-heavy
+part of the HTML path) IS modelled with checked reads and proved panic-free.
 -/
 import TdModel.Lemmas.C35
 import TdModel.Model.C37
+import TdModel.Lemmas.C37
 
 namespace TdModel.C37
 open TdModel.C35
@@ -60,6 +63,27 @@ every `WriteByte` they issue writes an ASCII literal (one whole rune). -/
 theorem parser_calls_are_modelled :
     subset (Facts.C37.htmlCalls ++ Facts.C37.mdCalls) (modelled ++ readOnly) = true ∧
     Facts.C37.htmlCallsWriteByteASCII = true ∧ Facts.C37.mdCallsWriteByteASCII = true := by decide
+
+/-- `unescapeEntity` (Telegram's character-reference rewriting, every index expression modelled as
+a checked read): for any slice starting with `&` it never indexes out of range, consumes between 1
+and `len(s)` bytes, and writes at most as many bytes as it consumes — so the in-place writes
+`b[dst] = …`, `utf8.EncodeRune(b[dst:], x)`, `copy(b[dst:dst1], …)` stay inside the slice. -/
+theorem unescapeEntity_total (s : Bytes) (h : 1 ≤ s.length) (h0 : C37U.rd s 0 = some 38) :
+    ∃ out n, C37U.unescapeEntity s = some (out, n) ∧ 1 ≤ n ∧ n ≤ s.length ∧ out.length ≤ n :=
+  C37U.unescapeEntity_spec s h h0
+
+/-- `telegramUnescape` never panics on ANY byte string (truncated, overflowing, surrogate and
+out-of-range numeric references included), and its output is never longer than its input. -/
+theorem telegramUnescape_total (b : Bytes) :
+    ∃ out, C37U.telegramUnescape b = some out ∧ out.length ≤ b.length :=
+  C37U.telegramUnescape_spec b
+
+/-- Non-vacuity / sample values of the unescape model on `&lt;b&gt;&amp;&#128512;&#x41&#5x&`:
+named and decimal references are replaced, a hex reference without `;` still counts (`&#x41` → `A`),
+a one-digit decimal reference without `;` does not (`&#5x` stays), a trailing lone `&` stays. -/
+example : C37U.telegramUnescape [38, 108, 116, 59, 98, 38, 103, 116, 59, 38, 97, 109, 112, 59, 38, 35, 49, 50, 56, 53, 49, 50, 59,
+                                 38, 35, 120, 52, 49, 38, 35, 53, 120, 38]
+    = some [60, 98, 62, 38, 0xF0, 0x9F, 0x98, 0x80, 65, 38, 35, 53, 120, 38] := by decide
 
 /-- Non-vacuity: `<b>a<i>😀  </i></b>` as the HTML parser drives the builder. -/
 example :
